@@ -31,6 +31,9 @@ def reexec():
             del env[k]
     deps = os.path.join(ROOT, ".deps")
     pp = [ROOT] + ([deps] if os.path.isdir(deps) else [])
+    if env.get("VERIF_REPO"):
+        # development aid (mutant runs on a scratch copy): registered commands never set this, they use /repo
+        pp.insert(0, env["VERIF_REPO"])
     if env.get("PYTHONPATH"):
         pp.append(env["PYTHONPATH"])
     env["PYTHONPATH"] = os.pathsep.join(pp)
@@ -62,8 +65,9 @@ def main():
     sys.path.insert(0, ROOT)
     try:
         import Pyro5
-        if not os.path.realpath(Pyro5.__file__).startswith("/repo/"):
-            sys.stderr.write("HARNESS ERROR: Pyro5 imported from %s, not /repo\n" % Pyro5.__file__)
+        want = os.path.realpath(os.environ.get("VERIF_REPO") or "/repo") + "/"
+        if not os.path.realpath(Pyro5.__file__).startswith(want):
+            sys.stderr.write("HARNESS ERROR: Pyro5 imported from %s, not %s\n" % (Pyro5.__file__, want))
             return 2
         import hypothesis  # noqa
         from vlib import driver
